@@ -59,7 +59,39 @@ def is_scalar(ty):
     return ty.replace("const", "").replace("&", "").strip() in ("double", "float")
 
 
+_LOADED = {}
+
+
+def preload(repo):
+    """run all clang invocations of FUNCS concurrently (the results are looked up by load())"""
+    from concurrent.futures import ThreadPoolExecutor
+    reqs = set()
+    for entry in FUNCS:
+        mode = entry[4] if len(entry) > 4 else {}
+        reqs.add((repo, entry[1], entry[2], mode.get("tu", "")))
+        for _, cflt in mode.get("constexpr", []):
+            reqs.add((repo, entry[1], cflt, ""))
+
+    def one(r):
+        try:
+            return r, load_uncached(*r)
+        except Unsupported as e:
+            return r, e
+    with ThreadPoolExecutor(max_workers=12) as ex:
+        for r, v in ex.map(one, sorted(reqs)):
+            _LOADED[r] = v
+
+
 def load(repo, src, flt, extra_tu=""):
+    v = _LOADED.get((repo, src, flt, extra_tu))
+    if v is None:
+        v = load_uncached(repo, src, flt, extra_tu)
+    if isinstance(v, Unsupported):
+        raise v
+    return v
+
+
+def load_uncached(repo, src, flt, extra_tu=""):
     tu = "#include \"%s\"\n%s" % (src, extra_tu)
     # -DNDEBUG: as the library is built; assert(...) becomes ((void)0) and is skipped
     cmd = ["clang++", "-std=c++17", "-DNDEBUG", "-fsyntax-only", "-w", "-I" + os.path.join(repo, "include"), "-I" + repo,
@@ -411,6 +443,8 @@ def generate(repo="/repo"):
              "From Coq Require Import ZArith.", "From Romea Require Import Num.", "", "Section Src.", "Context {T : Type} (N : NumOps T).", ""]
     errors, summary = [], {}
     known = {}
+    _LOADED.clear()
+    preload(repo)
     for entry in FUNCS:
         cname, src, flt, mname = entry[:4]
         mode = entry[4] if len(entry) > 4 else None
